@@ -1,4 +1,5 @@
 import Driver.Solver
+import Driver.Pipeline
 import Driver.Linker
 import Driver.Frame
 import Driver.TimeSeries
@@ -22,6 +23,7 @@ open Lean
 
 def allHandlers : List (String × (Json → Except String String)) :=
   Drv.Solver.handlers2 ++
+  Drv.Pipeline.handlers ++
   Drv.Linker.handlers ++
   Drv.Frame.handlers ++
   Drv.TimeSeries.handlers ++
